@@ -171,6 +171,47 @@ def run(repo, out_dir):
     lines.append(f'(* {REL}:{fn.lineno} at_state(phase, copy=False, reset_free_energies=True) *)\n'
                  f'Definition at_state_rebuilds (flag : bool) : bool := {g}.')
     info['at_state'] = g
+    # the copy=True branch: new = self.copy(...); new.at_state(phase[, reset_free_energies=<bool>]); return new
+    body = strip_docstring(src, fn.body)
+    default = None
+    for a, d in zip(fn.args.args[-len(fn.args.defaults):], fn.args.defaults):
+        if a.arg == 'reset_free_energies':
+            if not (isinstance(d, ast.Constant) and isinstance(d.value, bool)):
+                src.err(d, 'default of reset_free_energies must be a bool literal')
+            default = d.value
+    br = [st for st in body if isinstance(st, ast.If) and isinstance(st.test, ast.Name) and st.test.id == 'copy']
+    if len(br) != 1 or br[0].orelse or body.index(br[0]) != 0:
+        src.err(fn, 'at_state: expected `if copy:` as the first statement')
+    b = br[0].body
+    ok = (len(b) == 3 and isinstance(b[0], ast.Assign) and len(b[0].targets) == 1 and isinstance(b[0].targets[0], ast.Name)
+          and b[0].targets[0].id == 'new' and isinstance(b[0].value, ast.Call) and isinstance(b[0].value.func, ast.Attribute)
+          and b[0].value.func.attr == 'copy' and isinstance(b[0].value.func.value, ast.Name) and b[0].value.func.value.id == 'self'
+          and is_call(b[1], 'new', 'at_state') and isinstance(b[2], ast.Return) and isinstance(b[2].value, ast.Name) and b[2].value.id == 'new')
+    if not ok:
+        src.err(br[0], 'at_state: the copy branch must be `new = self.copy(...); new.at_state(phase, ...); return new`')
+    call = b[1].value
+    if len(call.args) < 1 or not (isinstance(call.args[0], ast.Name) and call.args[0].id == 'phase'):
+        src.err(call, 'at_state: the copy is not locked at the requested phase')
+    inner = default
+    extra = list(call.args[1:])
+    kws = {k.arg: k.value for k in call.keywords}
+    if len(extra) > 2 or (set(kws) - {'copy', 'reset_free_energies'}):
+        src.err(call, 'at_state: arguments of the inner call are outside the subset')
+    cp = extra[0] if extra else kws.get('copy')
+    if cp is not None and not (isinstance(cp, ast.Constant) and cp.value is False):
+        src.err(call, 'at_state: the inner call copies again')
+    fl = extra[1] if len(extra) > 1 else kws.get('reset_free_energies')
+    if fl is not None:
+        if isinstance(fl, ast.Constant) and isinstance(fl.value, bool): inner = fl.value
+        elif isinstance(fl, ast.Name) and fl.id == 'reset_free_energies': inner = 'flag'
+        else: src.err(fl, 'at_state: reset_free_energies of the inner call must be a bool literal or the parameter')
+    if inner is None:
+        src.err(fn, 'at_state: reset_free_energies has no default')
+    iv = inner if inner == 'flag' else ('true' if inner else 'false')
+    lines.append(f'(* {REL}:{br[0].lineno} at_state(phase, copy=True): {src.seg(b[1]).strip()} *)\n'
+                 f'Definition at_state_copy_inner_flag (flag : bool) : bool := {iv}.\n'
+                 f'Definition at_state_default_flag : bool := {"true" if default else "false"}.')
+    info['at_state(copy=True)'] = iv
 
     # setters that rebuild
     for prop in ('phase_ref', 'Tm', 'Tb'):
